@@ -25,6 +25,9 @@ type Case struct {
 	Template int    `json:"template,omitempty"`
 	V        string `json:"v"`
 	W        string `json:"w"`
+	// Holder: "" = v is a text value in the context; "object" = an object whose default is v (like a
+	// run result); "array" = a one-element array holding v
+	Holder string `json:"holder,omitempty"`
 }
 
 // Problem is a failed oracle clause.
@@ -233,7 +236,17 @@ var evaluator = excellent.NewEvaluator()
 
 func checkTemplate(cs *Case, o *obs) []Problem {
 	tpl := templates[cs.Template]
-	ctx := types.NewXObject(map[string]types.XValue{"v": types.NewXText(cs.V), "w": types.NewXText(cs.W)})
+	var vval types.XValue = types.NewXText(cs.V)
+	v := cs.V
+	switch cs.Holder {
+	case "object":
+		vval = types.NewXObject(map[string]types.XValue{"__default__": types.NewXText(cs.V), "value": types.NewXText(cs.V), "category": types.NewXText("Cat")})
+	case "array":
+		arr := types.NewXArray(types.NewXText(cs.V))
+		vval = arr
+		v = arr.Render() // the one literal the substitution must become is the array's own text form
+	}
+	ctx := types.NewXObject(map[string]types.XValue{"v": vval, "w": types.NewXText(cs.W)})
 	var text string
 	var err error
 	if pnc := mc.Guard(func() { text, _, err = evaluator.Template(cs.Cfg.env(), ctx, tpl.text, flows.ContactQueryEscaping) }); pnc != "" {
@@ -243,7 +256,12 @@ func checkTemplate(cs *Case, o *obs) []Problem {
 		return []Problem{{Key: "harness:template-evaluation-error", What: fmt.Sprintf("%q v=%q w=%q: %v", tpl.text, cs.V, cs.W, err)}}
 	}
 	cs.Query = text
-	return checkSubstituted("injection", cs, text, tpl, cs.V, cs.W, o)
+	kind := "injection"
+	if cs.Holder != "" {
+		kind = "injection-via-" + cs.Holder
+		o.fact("template:value-held-by-" + cs.Holder)
+	}
+	return checkSubstituted(kind, cs, text, tpl, v, cs.W, o)
 }
 
 func checkSubstituted(kind string, cs *Case, text string, tpl template, v, w string, o *obs) []Problem {
